@@ -336,10 +336,22 @@ Section Head.
     destruct find_E1_l as [n' ->]. rewrite E1_minus_l. reflexivity.
   Qed.
 
+  Lemma p_is_service_port : is_service_port E p = true.
+  Proof.
+    unfold is_service_port.
+    assert (H : find_nodes E p = [pnode]).
+    { unfold find_nodes. apply (find_nodes_unique (gnodes E) pnode).
+      - fold (ids E). unfold E. rewrite ids_ext. apply nodupE.
+      - unfold E, ext; simpl. apply in_app_iff. right. right. left. reflexivity. }
+    rewrite H. reflexivity.
+  Qed.
+
   Lemma disconnect_head fr :
     disconnect_interface (k_if c) (mkSt E fr) = (mkSt (ext g nsn cs) fr, Ok tt).
   Proof.
     unfold disconnect_interface, bind, ask. simpl sg. fold (k_i c). fold i. rewrite peers_head.
+    unfold filter.
+    replace (is_service_port (sg {| sg := E; sfresh := fr |}) p) with true by (symmetry; exact p_is_service_port).
     apply remove_cp_head.
   Qed.
 End Head.
